@@ -914,7 +914,36 @@ Script gen_c10(uint64_t seed, const std::string& tier, Rng& r)
             s.ops.push_back(simple(OP_AWAIT_BEST));
         }
     }
-    else if (shape < 56)
+    else if (shape < 53)
+    {
+        // clock-managed searches at the far end of the time manager's inputs: very high move numbers, long games, large movestogo
+        PosSpec p;
+        if (r.chance(0.5))
+        {
+            ref::Board b(gen_sparse_fen(r, 1, 6, true));
+            b.fullmove = int(r.chance(0.5) ? r.range(300, 1200) : r.logrange(100, 5000));
+            p.start_fen = b.fen();
+            p.game = ref::Game(ref::Board(p.start_fen));
+        }
+        else
+        {
+            p.game = ref::Game(ref::Board());
+            int target = int(r.range(400, 760));
+            while (int(p.game.moves.size()) < target)
+            {
+                int before = int(p.game.moves.size());
+                playout(p.game, r, std::min(50, target - before), 0.05);
+                if (int(p.game.moves.size()) == before) break;
+            }
+        }
+        g.set_position(p);
+        std::string go = "go wtime " + std::to_string(r.logrange(1, 20 * g.tmax_ms)) + " btime " + std::to_string(r.logrange(1, 20 * g.tmax_ms));
+        if (r.chance(0.5)) go += " winc " + std::to_string(r.below(uint64_t(g.tmax_ms) + 1)) + " binc " + std::to_string(r.below(uint64_t(g.tmax_ms) + 1));
+        go += " movestogo " + std::to_string(r.chance(0.5) ? r.range(40, 300) : r.range(1, 60));
+        s.ops.push_back(send(go));
+        s.ops.push_back(simple(OP_AWAIT_BEST));
+    }
+    else if (shape < 58)
     {
         // a node with >= 64 legal moves searched deep enough for late-move logic, every subtree cheap
         PosSpec p;
@@ -925,7 +954,7 @@ Script gen_c10(uint64_t seed, const std::string& tier, Rng& r)
         s.ops.push_back(send("go depth " + std::to_string(r.range(4, 5))));
         s.ops.push_back(simple(OP_AWAIT_BEST));
     }
-    else if (shape < 68)
+    else if (shape < 70)
     {
         static const char* big[] = {"R6R/3Q4/1Q4Q1/4Q3/2Q4Q/Q4Q2/pp1Q4/kBNN1KB1 w - - 0 1", "QQQQQQQQ/Q7/8/8/8/8/7k/K7 w - - 0 1",
                                     "NNNNNNNN/NN6/8/8/8/8/5k2/K7 w - - 0 1", "nnnnnnnn/nn6/8/8/8/8/5K2/k7 b - - 0 1",
